@@ -270,6 +270,10 @@ impl<const TY: u8> SA<TY>
                     };
                     e(&[ev::TOPIC_RET as usize, o, r.is_ok() as usize]);
                 }
+                Act::Share { x, caller } => {
+                    let h = if *caller { H::WCaller(ctx.weak_caller::<CallM, _>()) } else { H::WSender(ctx.weak_sender::<Msg>()) };
+                    crate::client::put(*x, crate::client::new_handle(a, h));
+                }
                 Act::Panic => panic!("scripted panic"),
                 Act::Fail => return Err(()),
                 Act::FailOnRestart => {
